@@ -190,20 +190,25 @@ def one_set(ctx, idx, probes):
         if not types:
             continue
         root_dir = os.path.join(d, "dsdl", root)
-        configs = [(l, None, None) for l in ("c", "cpp", "py", "html")]
+        configs = [(l, None, None, {}) for l in ("c", "cpp", "py", "html")]
+        # an allocator-aware C++ flavour (its include lists are built from more configuration than the plain one's), and template
+        # whitespace options other than the default
+        configs.append(("cpp", None, None, dict(options={"std": "c++17-pmr"})))
+        configs.append(("c", None, None, dict(ws=dict(trim_blocks=True, lstrip_blocks=True))))
         for l in ("c", "py"):
             td = os.path.join(d, "stress_" + l)
             write_stress_templates(td, l)
-            configs.append((l, td, "limit1"))
-            configs.append((l, td, "trim_limit0"))
-        for lang, tdir, ppname in configs:
+            configs.append((l, td, "limit1", {}))
+            configs.append((l, td, "trim_limit0", dict(ws=dict(lstrip_blocks=True)) if l == "py" else {}))
+        for lang, tdir, ppname, cfgx in configs:
             def pps():
                 if ppname == "limit1":
                     return [LimitEmptyLines(1)]
                 if ppname == "trim_limit0":
                     return [TrimTrailingWhitespace(), LimitEmptyLines(0)]
                 return None
-            tag = "%s_%s_%s" % (root, lang, ppname or "builtin")
+            tag = "%s_%s_%s%s" % (root, lang, ppname or "builtin", "_x" if cfgx else "")
+            kwx = dict(options=cfgx.get("options"), gen_kwargs=cfgx.get("ws"))
             n = [0]
 
             def run(ts, order_seed=None, **kw):
@@ -217,7 +222,7 @@ def one_set(ctx, idx, probes):
                     ctx.count("runs_on_pristine_models")
                 shared = kw.pop("shared_pps", None)
                 files, ns = genrun.gen_inprocess(ts, root_dir, out, lang, order_seed=order_seed, post_processors=shared if shared is not None else pps(),
-                                                 templates_dir=tdir, **kw)
+                                                 templates_dir=kw.pop("templates_dir", tdir), **dict(kwx, **kw))
                 stem = ns.get_language_context().get_target_language().namespace_output_stem
                 shutil.rmtree(out, ignore_errors=True)
                 return per_type_files(files, stem)
@@ -263,9 +268,12 @@ def one_set(ctx, idx, probes):
                     except Exception as e:
                         ctx.refute(None, "variant same_generator failed: %r" % e, dict(set=idx, root=root, lang=lang, pre_calls=pre))
             for v in range(nvar):
-                kind = R.choice(["perm", "subset", "closed", "again", "after_other", "after_config", "config_vs_fresh", "same_generator", "after_failed", "shared_pp_list"])
-                if kind == "config_vs_fresh" and (lang == "html" or tdir):
+                kind = R.choice(["perm", "subset", "closed", "again", "after_other", "after_config", "config_vs_fresh", "same_generator", "after_failed", "shared_pp_list",
+                                 "after_other_whitespace", "after_template_set_change"])
+                if kind == "config_vs_fresh" and (lang == "html" or tdir or cfgx):
                     kind = "perm"
+                if kind == "after_template_set_change" and not tdir:
+                    kind = "after_other_whitespace"
                 try:
                     if kind == "shared_pp_list":
                         # library use: one post-processor list object handed to a generator of another language first
@@ -282,6 +290,32 @@ def one_set(ctx, idx, probes):
                         pre = [dict(is_dryrun=R.random() < 0.4, omit_serialization_support=R.random() < 0.5, embed_auditing_info=R.random() < 0.5)
                                for _ in range(R.choice([1, 2, 3]))]
                         variants.append((kind, run(types, pre_calls=pre)))
+                    elif kind == "after_other_whitespace":
+                        # the same language, configuration and templates were rendered earlier in this interpreter with other
+                        # template whitespace options
+                        ws0 = dict(cfgx.get("ws") or {})
+                        other_ws = R.choice([w for w in (dict(trim_blocks=True), dict(lstrip_blocks=True), dict(trim_blocks=True, lstrip_blocks=True), {}) if w != ws0])
+                        o = os.path.join(d, "out_other")
+                        genrun.gen_inprocess(types, root_dir, o, lang, post_processors=pps(), templates_dir=tdir, options=cfgx.get("options"), gen_kwargs=other_ws)
+                        shutil.rmtree(o, ignore_errors=True)
+                        variants.append((kind, run(types)))
+                    elif kind == "after_template_set_change":
+                        # the user's template folder held fewer templates when a generator was built on it earlier in this interpreter
+                        # (only a catch-all); the class-named templates were added since
+                        tmut = os.path.join(d, "mut_%s_%d" % (tag, v))
+                        os.makedirs(tmut, exist_ok=True)
+                        with open(os.path.join(tmut, "Any.j2"), "w") as f:
+                            f.write("catch-all {{ T }}\n")
+                        try:
+                            o = os.path.join(d, "out_other")
+                            genrun.gen_inprocess(types, root_dir, o, lang, post_processors=pps(), templates_dir=tmut, **kwx)
+                            shutil.rmtree(o, ignore_errors=True)
+                        except Exception:
+                            ctx.count("earlier_run_on_smaller_template_set_failed")
+                        for fn in os.listdir(tdir):
+                            shutil.copy(os.path.join(tdir, fn), os.path.join(tmut, fn))
+                        os.unlink(os.path.join(tmut, "Any.j2"))
+                        variants.append((kind, run(types, templates_dir=tmut)))
                     elif kind == "perm":
                         variants.append((kind, run(types, order_seed=R.random())))
                     elif kind == "subset":
@@ -334,6 +368,14 @@ def one_set(ctx, idx, probes):
                 except Exception as e:
                     ctx.refute(None, "variant %s failed: %r" % (kind, e), dict(set=idx, root=root, lang=lang))
                     continue
+            if cfgx or (tdir and R.random() < 0.5) or R.random() < 0.15:
+                # what this interpreter produced for the configuration (after everything that ran in it before) against the same
+                # configuration generated alone in a fresh process
+                try:
+                    fresh = fresh_process_run(d, roots, root, lang, None, os.path.join(d, "out_fresh"), dict(options=cfgx.get("options"), ws=cfgx.get("ws"), tdir=tdir, pp=ppname))
+                    variants.append(("fresh_process", {k: v.encode("utf-8") for k, v in fresh.items()}))
+                except Exception as e:
+                    ctx.refute(None, "fresh-process run of the configuration failed: %r" % e, dict(set=idx, root=root, lang=lang))
             for kind, files in variants:
                 ctx.count("variant_runs[%s]" % kind)
                 for rel, content in files.items():
@@ -363,17 +405,28 @@ sys.path.insert(0, %(verif)r)
 import pydsdl
 from vlib import genrun, common
 from vlib.props import c10
-d, roots, root, lang, ov, out = json.loads(sys.argv[1])
+d, roots, root, lang, ov, out = json.loads(sys.argv[1])[:6]
+more = (json.loads(sys.argv[1]) + [None])[6] or {}
 types = pydsdl.read_namespace(os.path.join(d, "dsdl", root), [os.path.join(d, "dsdl", x) for x in roots if x != root], allow_unregulated_fixed_port_id=True)
-files, ns = genrun.gen_inprocess(types, os.path.join(d, "dsdl", root), out, lang, overrides=ov)
+files, ns = genrun.gen_inprocess(types, os.path.join(d, "dsdl", root), out, lang, overrides=ov, options=more.get("options"), gen_kwargs=more.get("ws"),
+                                 templates_dir=more.get("tdir"), post_processors=c10.pps_of(more.get("pp")))
 stem = ns.get_language_context().get_target_language().namespace_output_stem
 print(json.dumps({k: v.decode("utf-8", "replace") for k, v in c10.per_type_files(files, stem).items()}))
 """
 
 
-def fresh_process_run(d, roots, root, lang, ov, out):
+def pps_of(ppname):
+    from nunavut._postprocessors import LimitEmptyLines, TrimTrailingWhitespace
+    if ppname == "limit1":
+        return [LimitEmptyLines(1)]
+    if ppname == "trim_limit0":
+        return [TrimTrailingWhitespace(), LimitEmptyLines(0)]
+    return None
+
+
+def fresh_process_run(d, roots, root, lang, ov, out, more=None):
     import json
-    r = common.run([common.PY, "-c", FRESH % dict(verif=common.VERIF), json.dumps([d, roots, root, lang, ov, out])], env=common.child_env(), timeout=600)
+    r = common.run([common.PY, "-c", FRESH % dict(verif=common.VERIF), json.dumps([d, roots, root, lang, ov, out, more])], env=common.child_env(), timeout=600)
     shutil.rmtree(out, ignore_errors=True)
     if r.returncode != 0:
         raise RuntimeError("fresh-process run failed: %s" % r.stderr[-500:])
